@@ -18,6 +18,8 @@ CONSTANTS
   WrongKinds = {}
   MsgBudget = 7
   InitSerial = 0
+  Senders = {0, 1, 2}
+  PoolKinds = {"live", "dead", "never"}
   ScriptSel = "chan"
   V0 = 20
   V1 = 20
